@@ -82,7 +82,8 @@ CHECKS = {
         "languages, results); a result is reused only for an unchanged path and content from a same-version cache; a cache of "
         "another version is never used.  Tie: all single operations and sampled pairs/triples after a populated scan plus "
         "random histories on a real temp directory through scan_command, each scan compared with scan_command on a "
-        "cache-free copy and with the Coq machine (entries + which files were analysed).",
+        "cache-free copy and with the Coq machine (entries + which files were analysed); edits that change white space only "
+        "(blank lines in front / at the end / inside, trailing spaces, line ends), applied and undone between two scans.",
    note="Trusted: Coq kernel; analysis and file-name->language map as oracles (deterministic: C06), md5 injective on the contents "
         "used; hand model of scan_command/_scan_file (tie H); translator for tool_version.",
    technique="Rocq proof (inductive invariant over operation histories, refinement to the fresh scan) + real-directory history replay",
